@@ -1,9 +1,16 @@
 package main
 
 import (
+	"bytes"
 	"fmt"
 
+	"github.com/hashicorp/go-hclog"
+	"verif/codec"
+	gldap "verif/gldapx"
+	"verif/gldapx/testdirectory"
+
 	vrt "verif/rt"
+	"verif/shim/vnet"
 )
 
 // Scenarios added after the second round of seeded changes: each closes a gap that a change nobody had
@@ -131,6 +138,57 @@ func registerRound2() {
 		})
 	}
 
+	// ---------------------------------------------------------------- C17: served until Stop
+	// a client that has connected and says nothing must not keep later clients from being accepted and served
+	for _, n := range []int{1, 2} {
+		conns := []ConnSpec{}
+		for i := 0; i < n; i++ {
+			conns = append(conns, ConnSpec{End: "stay", EndNote: "fresh-done", Name: fmt.Sprintf("silent%d", i+1)})
+		}
+		conns = append(conns, ConnSpec{Ops: []string{"bind", "search"}, Segs: []int{1, 1}, Expect: 2, Name: "fresh", WaitNote: "silent1-connected"})
+		regSpec(&Spec{
+			Name: fmt.Sprintf("silent-clients-%d-vs-new-connection", n), Props: []string{"C17", "C06", "C07"},
+			Conns: conns,
+			Extra: func(w *World) {
+				vrt.GoNamed("watch", func() {
+					vrt.WaitUntil("accepted", func() bool { return vnet.Accepted() >= n })
+					vrt.Atomic(func() { w.Notes["silent1-connected"]++ })
+				})
+			},
+			Check: func(x *vrt.Sched, w *World) []Finding {
+				for _, c := range w.Clients {
+					if c.Name == "fresh" && (c.DialErr != nil || len(c.Frames) != 2) {
+						return []Finding{{"C17", "a connection made while the server is ready is not served (another client is connected and silent)", fmt.Sprintf("fresh got %d of 2 frames (dial error %v)", len(c.Frames), c.DialErr)}}
+					}
+				}
+				return nil
+			},
+			Quick: 2, Thor: 3,
+		})
+	}
+	// connections coming and going next to each other, with a debug-level logger (gldap logs - and may
+	// compute what it logs - on paths that are silent otherwise)
+	regSpec(&Spec{
+		Name: "reconnect-churn-debug-logger", Props: []string{"C17", "C07", "C09", "C08"},
+		Srv: SrvOpts{Debug: true},
+		Conns: []ConnSpec{
+			{Ops: []string{"bind"}, Expect: 1, Name: "faulty"},
+			{Ops: []string{"bind", "search"}, Segs: []int{1, 1}, Expect: 2, Name: "fresh"},
+			{Ops: []string{"search"}, Expect: 1, Name: "bystander", After: 1},
+		},
+		Check: bystandersServed,
+		Quick: 2, Thor: 3,
+	})
+	regSpec(&Spec{
+		Name: "stop-races-close-and-accept-debug-logger", Props: []string{"C11", "C12", "C17"},
+		Srv: SrvOpts{Debug: true},
+		Conns: []ConnSpec{
+			{Ops: []string{"bind"}, Expect: 1},
+			{Ops: []string{"bind"}, Read: "all", WaitNote: "c1-done"},
+		},
+		StopWhen: "note:c1-done", Quick: 2, Thor: 3,
+	})
+
 	// ---------------------------------------------------------------- C12 / C15: TLS listener
 	regSpec(&Spec{Name: "stop-no-connections-tls-listener", Props: []string{"C11", "C12", "C15"}, Srv: SrvOpts{TLS: getPKI().ServerCfg}, StopWhen: "now", Quick: -1, Thor: -1})
 	regSpec(&Spec{
@@ -182,4 +240,154 @@ func registerRound2() {
 			H: map[int]*HSpec{3: {WaitStarted: 5}, 4: {WaitStarted: 5}}, Expect: 5}},
 		Check: startTLSCheck(1), Quick: 2, Thor: 3,
 	})
+
+	// ---------------------------------------------------------------- C14: one control object on several responses
+	for _, kind := range ctlKinds {
+		kind := kind
+		chk := func(x *vrt.Sched, w *World) []Finding {
+			if x.Deadlock || x.Crash != nil {
+				return nil
+			}
+			want := newCtl(kind).Encode().Bytes()
+			var fs []Finding
+			for _, c := range w.Clients {
+				for _, f := range c.Frames {
+					r, err := codec.ParseResponse(f)
+					if err != nil {
+						fs = append(fs, Finding{"C14", "a response carrying a shared control does not parse", fmt.Sprintf("client %s: %v: % x", c.Name, err, trunc(f))})
+						continue
+					}
+					if r.IsEntry {
+						continue
+					}
+					if len(r.Controls) != 1 || !bytes.Equal(r.Controls[0].Bytes(), want) {
+						got := [][]byte{}
+						for _, n := range r.Controls {
+							got = append(got, n.Bytes())
+						}
+						fs = append(fs, Finding{"C14", "a control object attached to several responses does not reach every client unchanged", fmt.Sprintf("client %s message %d: controls % x, want % x", c.Name, r.MsgID, got, want)})
+					}
+				}
+			}
+			return fs
+		}
+		regSpec(&Spec{
+			Name: "shared-control-two-connections-" + kind, Props: []string{"C14", "C04"},
+			Conns: []ConnSpec{
+				{Ops: []string{"bind"}, H: map[int]*HSpec{1: {WaitStarted: 2, Ctl: kind}}, Expect: 1},
+				{Ops: []string{"search"}, H: map[int]*HSpec{1: {WaitStarted: 2, Ctl: kind}}, Expect: 1},
+			},
+			Check: chk, Quick: 2, Thor: 3,
+		})
+		regSpec(&Spec{
+			Name: "shared-control-one-connection-" + kind, Props: []string{"C14", "C04"},
+			Conns: []ConnSpec{
+				{Ops: []string{"bind", "search", "bind"}, H: map[int]*HSpec{1: {WaitStarted: 3, Ctl: kind}, 2: {WaitStarted: 3, Ctl: kind}, 3: {Ctl: kind}}, Expect: 3},
+			},
+			Check: chk, Quick: 2, Thor: 3,
+		})
+	}
+
+	// ---------------------------------------------------------------- C19: binds in flight at the same time
+	registerDirBinds()
+}
+
+type dirBind struct {
+	name, dn, pw string
+	want         int64
+}
+
+func registerDirBinds() {
+	alice := "cn=alice,ou=people,dc=example,dc=org"
+	bob := "cn=bob,ou=people,dc=example,dc=org"
+	binds := []dirBind{
+		{"alice-right", alice, "password", 0},
+		{"alice-wrong", alice, "nope", 49},
+		{"bob-right", bob, "password", 0},
+		{"unknown", "cn=mallory,ou=people,dc=example,dc=org", "password", 49},
+		{"anonymous", "", "", 49},
+		{"alice-empty", alice, "", 49},
+	}
+	pairs := [][2]int{{0, 1}, {1, 2}, {3, 2}, {4, 0}, {5, 2}, {0, 2}, {3, 1}}
+	for _, sameConn := range []bool{false, true} {
+		for _, pr := range pairs {
+			a, b := binds[pr[0]], binds[pr[1]]
+			sameConn := sameConn
+			name := "dir-binds-" + a.name + "-vs-" + b.name
+			if sameConn {
+				name += "-one-connection"
+			}
+			var results map[int64]int64
+			reg(&Scn{Name: name, Props: []string{"C19", "C15"}, Quick: 2, Thor: 3, Body: func() {
+				w := NewWorld()
+				vrt.PermuteMaps = false
+				curSpec = nil
+				results = map[int64]int64{}
+				t := &harnessT{}
+				logger := hclog.New(&hclog.LoggerOptions{Level: hclog.Off, Output: w.LogBuf})
+				users := testdirectory.NewUsers(t, []string{"alice", "bob"})
+				d := testdirectory.VNew(t, logger, testdirectory.WithDefaults(t, &testdirectory.Defaults{Users: users}))
+				mux, err := d.VMux()
+				if err != nil {
+					panic(err)
+				}
+				srv, _ := gldap.NewServer(gldap.WithLogger(logger))
+				_ = srv.Router(mux)
+				w.Srv, w.Addr = srv, defaultAddr
+				w.GoRun(SrvOpts{})
+				done := 0
+				record := func(cl *Cl) {
+					for _, f := range cl.Frames {
+						if r, err := codec.ParseResponse(f); err == nil {
+							vrt.Atomic(func() { results[r.MsgID] = r.Code })
+						}
+					}
+				}
+				req := func(id int64, bd dirBind) []byte {
+					return (&codec.Req{Op: "bind", MsgID: id, Version: 3, DN: bd.dn, Password: bd.pw}).Bytes()
+				}
+				if sameConn {
+					vrt.GoNamed("c1", func() {
+						defer func() { done += 2 }()
+						cl := w.Dial("c1", 0)
+						_ = cl.Send(append(req(1, a), req(2, b)...))
+						cl.ReadFrames(2)
+						record(cl)
+						cl.Close()
+					})
+				} else {
+					for i, bd := range []dirBind{a, b} {
+						i, bd := i, bd
+						vrt.GoNamed(fmt.Sprintf("c%d", i+1), func() {
+							defer func() { done++ }()
+							cl := w.Dial(fmt.Sprintf("c%d", i+1), 0)
+							_ = cl.Send(req(int64(i+1), bd))
+							cl.ReadFrames(1)
+							record(cl)
+							cl.Close()
+						})
+					}
+				}
+				vrt.WaitUntil("done", func() bool { return done == 2 })
+				w.Stop()
+			}, Check: func(x *vrt.Sched, w *World) []Finding {
+				if x.Deadlock || x.Crash != nil || x.Horizon {
+					return nil
+				}
+				var fs []Finding
+				for i, bd := range []dirBind{a, b} {
+					got, ok := results[int64(i+1)]
+					switch {
+					case !ok:
+						fs = append(fs, Finding{"C19", "a bind that is in flight together with another bind gets no answer", fmt.Sprintf("Bind(%s,%q)", bd.dn, bd.pw)})
+					case got != bd.want && bd.want == 49:
+						fs = append(fs, Finding{"C19", "a bind with wrong credentials succeeds while another bind is in flight", fmt.Sprintf("Bind(%s,%q) = %d next to Bind(%s,...)", bd.dn, bd.pw, got, []dirBind{b, a}[i].dn)})
+					case got != bd.want:
+						fs = append(fs, Finding{"C19", "a bind with the right credentials fails while another bind is in flight", fmt.Sprintf("Bind(%s,%q) = %d", bd.dn, bd.pw, got)})
+					}
+				}
+				return fs
+			}})
+		}
+	}
 }
